@@ -2830,7 +2830,11 @@ MANIFEST = {
             'energy and the Voigt/Reuss/Hill moduli, each template is fixed by its generating rotations, the 15 '
             'modulus pairs return (lambda+2mu, lambda, mu), and normalisation is idempotent.  The compiled model is '
             'also run against the real class on identical exact inputs, and an independent Fraction oracle evaluates '
-            'the clauses on the real class.',
+            'the clauses on the real class — in unit systems from 2^-40 to 2^40, on weakly anisotropic tensors, small '
+            'rotations and ill-conditioned tensors, at tolerances relative to the tensor.  An object model (one stored '
+            'matrix; setters overwrite, reads are pure: object_* theorems) is tied to the class by running operation '
+            'sequences on one object in both, and the oracle checks read-order independence, absence of aliasing and '
+            'of stale or shared state against fresh objects.',
     'note': 'Trusted: Lean kernel + propext/Classical.choice/Quot.sound; the translator/symbolic executor in '
             'harness/props/c11.py; numpy einsum/inv/isclose. The 6x6 inverse and the square roots are parameters with '
             'hypotheses (C*S = 1 and S*C = 1; r*r = radicand, r >= 0). Float rounding and the 1e-8/1e-9 clean-ups are '
